@@ -743,7 +743,46 @@ def rule_csv_file_modes(ctx: Ctx) -> RuleResult:
                     "writing bytes to a text file raises TypeError"), trace_of(p)))
         if not got:
             raise AnalysisError("csv.dump_to_file: no pipeline found for encoding %s" % enc)
-    r.require_instances(1)
+    # the reader: the text that reaches line.unframe is decoded by one decoder for the whole file -- the file object opened in text
+    # mode, or the incremental rs.data.decode stage after a binary read; never chunk by chunk (a character cut by the 64 KiB read
+    # boundary cannot be decoded on its own)
+    ml, fl = ctx.function(CSV, "load_from_file")
+    r.instances += 1
+    dflt_r = _defaults(*ctx.function("rxsci/io/file.py", "read")).get("mode")
+    for p in ctx.fn_paths(ml, fl, only_inline=set()):
+        r.paths += 1
+        if p.outcome != "return":
+            continue
+        st = _pipe_stages(p, p.value)
+        if st is None:
+            raise AnalysisError("csv.load_from_file: the returned pipeline is not <file.read(...)>.pipe(...)")
+        src, stages = st
+        if _stage_id(src) != "rxsci.io.file.read":
+            raise AnalysisError("csv.load_from_file: the source of the pipeline is %s, not file.read" % _stage_id(src))
+        kw = _kwargs_of(src)
+        mode = kw.get("mode")
+        eff = mode[1] if (mode is not None and mode[0] == "const" and isinstance(mode[1], str)) else (ast.literal_eval(dflt_r) if mode is None and dflt_r else None)
+        if eff is None:
+            raise AnalysisError("csv.load_from_file: cannot tell the mode the file is read in (%s)" % (show(mode) if mode is not None else None))
+        ids = [_stage_id(x) for x in stages]
+        per_chunk = False
+        for x in stages:
+            if x[0] == "call" and x[1] == ("glob", "rx.operators.map") and x[2] and x[2][0][0] in ("lambda", "func"):
+                fm, ff = x[2][0][2], x[2][0][1]
+                for q in ctx.fn_paths(fm, ff):
+                    if q.outcome == "return" and q.value is not None and any(y[0] == "mcall" and y[2] == "decode" for y in subterms(q.value)):
+                        per_chunk = True
+        incremental = "rxsci.data.codec.decode" in ids
+        binary = "b" in eff
+        r.groups.add(("load_from_file", binary))
+        ok = not per_chunk and (incremental if binary else not incremental)
+        r.ob(ok, lambda p=p, eff=eff, per_chunk=per_chunk, incremental=incremental: Finding(
+            "CS-5", "%s::load_from_file{decoding}" % CSV, ml.where(fl),
+            "the file is read in mode %r and %s: %s" % (
+                eff, "each read chunk is decoded on its own in a map stage" if per_chunk else ("passed through rs.data.decode" if incremental else "not decoded by a stage"),
+                "a multi-byte character cut by the read-chunk boundary cannot be decoded chunk by chunk (UnicodeDecodeError for files larger than a chunk)" if per_chunk
+                else "bytes and text do not match between the reader and line.unframe"), trace_of(p)))
+    r.require_instances(2)
     return r
 
 
@@ -1280,6 +1319,28 @@ def rule_pu2(ctx: Ctx) -> RuleResult:
     mt, ftr = ctx.function(PQ, "to_record")
     ok = ast.unparse(ftr.body[-1]) == "return rs.ops.map(create_record(schema))"
     r.ob(ok, lambda: Finding("PU-2", "%s::to_record" % PQ, mt.where(ftr), "to_record must map one fresh record builder over the batches"))
+    # the writer is built on the schema the records were built with, and with no option that makes pyarrow rewrite what it is given
+    # (library facts, pyarrow.parquet.ParquetWriter: flavor='spark' renames columns and coerces timestamps; coerce_timestamps /
+    # allow_truncated_timestamps / use_deprecated_int96_timestamps change or truncate timestamp values)
+    REWRITING = {"flavor", "coerce_timestamps", "allow_truncated_timestamps", "use_deprecated_int96_timestamps"}
+    mw, fw = ctx.function(PQ, "_dump_parquet")
+    wcalls = [n for n in ast.walk(fw) if isinstance(n, ast.Call) and isinstance(n.func, ast.Attribute) and n.func.attr == "ParquetWriter"]
+    if len(wcalls) != 1:
+        raise AnalysisError("parquet._dump_parquet: expected one pq.ParquetWriter(...) call, found %d" % len(wcalls))
+    wc = wcalls[0]
+    r.instances += 1
+    r.groups.add(("_dump_parquet", "writer-options"))
+    if any(k.arg is None for k in wc.keywords) or any(isinstance(a, ast.Starred) for a in wc.args):
+        raise AnalysisError("parquet._dump_parquet: the ParquetWriter call takes */** arguments; its options cannot be told")
+    wschema = wc.args[1] if len(wc.args) > 1 else next((k.value for k in wc.keywords if k.arg == "schema"), None)
+    r.ob(wschema is not None and isinstance(wschema, ast.Name) and wschema.id == "schema", lambda: Finding(
+        "PU-2", "%s::_dump_parquet{writer-schema}" % PQ, mw.where(wc), "the writer must be opened on the schema given to dump_to_file; it is opened on %s" % (
+            ast.unparse(wschema) if wschema is not None else None)))
+    bad = [k for k in wc.keywords if k.arg in REWRITING and not (isinstance(k.value, ast.Constant) and k.value.value in (None, False))]
+    r.ob(not bad, lambda: Finding(
+        "PU-2", "%s::_dump_parquet{writer-options}" % PQ, mw.where(wc),
+        "the writer is opened with %s: pyarrow then rewrites the schema / the values it is given (flavor='spark' replaces ' ,;{}()\\n\\t=' in column names by '_' "
+        "and coerces timestamps), so the file does not hold the source rows" % ", ".join("%s=%s" % (k.arg, ast.unparse(k.value)) for k in bad)))
     # writer: each record batch written once; closed before completion
     site = ctx.site(PQ, "_dump_parquet._dump.on_subscribe")
     spec = site.handler_specs("on_next")[0]
@@ -1354,5 +1415,5 @@ def rule_pu2(ctx: Ctx) -> RuleResult:
             r.ob(ok, lambda: Finding("PU-2", "%s::load_from_file._load_file{completion}" % PQ, ml.where(fl),
                                      "on_completed must follow the last row, exactly once; this path: %s" % summary(p), trace_of(p)))
     r.ob(saw_rows, lambda: Finding("PU-2", "%s::load_from_file._load_file{loops}" % PQ, ml.where(fl), "no batch / row loops found in the loader"))
-    r.require_instances(3)
+    r.require_instances(4)
     return r
